@@ -16,6 +16,8 @@ def parseObs? (toks : List String) : Option Obs :=
   | ["kdelete", k] => do pure (.delete (← parseNat? k))
   | ["kopen", k, m, uo] => do pure (.open_ (← parseNat? k) (← parseNat? m) (← parseBool? uo))
   | ["upderr"] => some .upderr
+  | ["updlate", v] => do pure (.updlate 0 (← parseNat? v))
+  | ["kupdlate", k, v] => do pure (.updlate (← parseNat? k) (← parseNat? v))
   | ["updokbg", v, t] => do pure (.updokbg 0 (← parseNat? v) (← parseNat? t))
   | ["quiesce"] => some .quiesce
   | ["open", m, uo] => do pure (.open_ 0 (← parseNat? m) (← parseBool? uo))
